@@ -60,6 +60,31 @@ func runGet(start string) (bool, error, any) {
 	return doc != nil, err, doc
 }
 
+// newAndShow constructs the item and puts it on the screen the way the UI does (a panic in
+// any of that is the fault's doing).
+func newAndShow(start string) (bool, error, any) {
+	it := pub.New(start, nil)
+	if f, ok := it.(*pub.Failure); ok {
+		return false, errors.New(pub.VerifFailureText(f)), it
+	}
+	if t, ok := it.(pub.Tangible); ok {
+		_ = t.Name()
+		_ = t.String(60)
+		_ = t.Preview(40)
+		if ch := t.Children(); ch != nil {
+			items, _, _ := ch.Harvest(2, 0)
+			for _, c := range items {
+				_ = c.Preview(40)
+			}
+		}
+		ps, _ := t.Parents(1)
+		for _, p := range ps {
+			_ = p.Preview(40)
+		}
+	}
+	return true, nil, it
+}
+
 func scenarios() []scenario {
 	h := "https://f.example"
 	var out []scenario
@@ -104,13 +129,14 @@ func scenarios() []scenario {
 	out = append(out, scenario{Name: "actor", Routes: map[string][]byte{
 		actor:  resp("200 OK", ct, jsonDoc(map[string]any{"type": "Person", "id": actor, "name": "Bob", "preferredUsername": "bob", "outbox": outbox})),
 		outbox: resp("200 OK", ct, jsonDoc(map[string]any{"type": "OrderedCollection", "id": outbox, "totalItems": 0, "orderedItems": []any{}})),
-	}, Hops: []string{actor, outbox}, Start: actor, Run: func(start string) (bool, error, any) {
-		it := pub.New(start, nil)
-		if f, ok := it.(*pub.Failure); ok {
-			return false, errors.New(pub.VerifFailureText(f)), it
-		}
-		return true, nil, it
-	}})
+	}, Hops: []string{actor, outbox}, Start: actor, Run: newAndShow})
+	// a post whose replies are fetched separately: the fault hits the second fetch, and the
+	// post (shown in full, as a preview, with its replies) must cope with whatever came back
+	post, replies := h+"/notes/with-replies", h+"/notes/with-replies/replies"
+	out = append(out, scenario{Name: "post-with-replies", Routes: map[string][]byte{
+		post:    resp("200 OK", ct, jsonDoc(map[string]any{"type": "Note", "id": post, "content": "<p>a post</p>", "mediaType": "text/html", "replies": replies})),
+		replies: resp("200 OK", ct, jsonDoc(map[string]any{"type": "Collection", "id": replies, "totalItems": 1, "items": []any{map[string]any{"type": "Note", "id": h + "/notes/r1", "content": "reply", "inReplyTo": post}}})),
+	}, Hops: []string{post, replies}, Start: post, Run: newAndShow})
 	return out
 }
 
@@ -281,8 +307,8 @@ func runCase(r *ev.Report, sc scenario, f fault) {
 			loc := li + strings.Index(string(raw)[li:], "\r\n")
 			complete = f.At >= loc+2
 		}
-		if sc.Name == "actor" && f.Hop == 1 {
-			// the outbox is a part of the actor: its failure is shown inside the actor item
+		if (sc.Name == "actor" || sc.Name == "post-with-replies") && f.Hop == 1 {
+			// the outbox (the replies) is a part of the actor (the post): its failure is shown inside the item
 			return
 		}
 		if !complete && err == nil && gotDoc {
@@ -295,7 +321,7 @@ func runCase(r *ev.Report, sc scenario, f fault) {
 			r.Note("complete document followed by FIN refused (allowed): %s at %d: %v", sc.Name, f.At, err)
 		}
 	}
-	if (f.Kind == "refuse" || f.Kind == "stall-connect") && err == nil && !(sc.Name == "actor" && f.Hop == 1) {
+	if (f.Kind == "refuse" || f.Kind == "stall-connect") && err == nil && !((sc.Name == "actor" || sc.Name == "post-with-replies") && f.Hop == 1) {
 		r.Violation(key("no-error"), map[string]any{"case": c, "msg": "a failed connection produced no error"})
 	}
 	if f.Kind == "none" && err != nil {
@@ -312,7 +338,7 @@ func runCase(r *ev.Report, sc scenario, f fault) {
 func main() {
 	envaDir := enva.Reexec()
 	r := ev.New("C05", "fault_enumeration",
-		"corpus of 10 exchanges (6 single responses incl. nested, trailing-garbage, 4 kB and LF-only; a 3-hop and a 7-hop redirect chain; a webfinger lookup; pub.New on an actor with an outbox); "+
+		"corpus of 11 exchanges (6 single responses incl. nested, trailing-garbage, 4 kB and LF-only; a 3-hop and a 7-hop redirect chain; a webfinger lookup; pub.New on an actor with an outbox and on a post with separately fetched replies, both then shown in full, as previews and with their children); "+
 			"faults: cut after every byte k of every response with FIN, with RST and as a stall, trickle (one byte per 0.6 x timeout) from 3 start points, connection refused and connection stall, at every hop; "+
 			"virtual-time connections: a stalled read times out iff a deadline is armed; Env-A: one real-time case per stall stage (before/in status line, headers, after headers, body, trickle, truncated body, no TLS handshake) over real TLS with a 1 s timeout; distinct_nontrivial = fault points inside a response (not before byte 0 or after the last byte)")
 	if *ev.FlagReplay != "" {
